@@ -354,9 +354,14 @@ impl AssocFileData {
         self.get_dependency_flags_from_name(dependency).is_some()
     }
 
+    /// The DECLARATION of `dependency` in the current function, if any. An earlier `modify name = ..`
+    /// registers `name` in its scope as an alias of the captured variable ([`Ident::is_modify_alias`]):
+    /// such an entry is not a variable of this function (see [`Self::get_declaration_flags_from_name_skip_n`]).
     pub fn has_name_been_mapped_in_function(&self, dependency: &str) -> Option<Ident> {
         for scope in self.scopes.iter() {
-            let maybe_result = scope.contains(dependency);
+            let maybe_result = scope
+                .contains(dependency)
+                .filter(|ident| !ident.is_modify_alias());
             if maybe_result.is_some() {
                 return maybe_result.cloned();
             }
